@@ -24,6 +24,16 @@ def main():
             if diff or len(common) < cnt * 0.9:
                 bad += 1
                 print("   MISMATCH seeds: %s" % diff[:10])
+    if not quick:
+        # the schedule must not depend on the build variant either (no floating-point result feeds a scheduling decision)
+        bp, bs = buildmod.build("plain", verbose=False), buildmod.build("san", verbose=False)
+        for h, cnt in (("c16_dispatch", 5000), ("c13_container", 500), ("c06_parallel", 500)):
+            a, _ = vlib.run_batch(bp[h], 555000000, cnt, 300)
+            b, _ = vlib.run_batch(bs[h], 555000000, cnt, 600)
+            ha = {r["seed"]: (r["hash"], r["verdict"]) for r in a}; hb = {r["seed"]: (r["hash"], r["verdict"]) for r in b}
+            common = set(ha) & set(hb); diff = [x for x in common if ha[x] != hb[x]]
+            print("[selftest] plain vs san %s: %d seeds, %d mismatches" % (h, len(common), len(diff)))
+            if diff or len(common) < cnt * 0.9: bad += 1; print("   MISMATCH seeds: %s" % diff[:10])
     print("[selftest] %s" % ("FAILED" if bad else "ok"))
     return 1 if bad else 0
 
